@@ -38,4 +38,38 @@ def bubble (code : String) : List Member → List Nat × Outcome
         let (errs, out) := bubble code ms
         (m.tid :: errs, out)
 
+/-! ## Histories of errors
+
+The flags are per task and persist: `$is_catch_processed` is written into the catching task's data when its catch is used,
+and the tasks the error passed through stay in `error` (terminal). A history is any sequence of errors, each raised on
+some chain of tasks (nearest first, with the catches declared on them). -/
+
+/-- the persistent part: which tasks have used their catch, which are closed by an error that passed through them -/
+structure Hist where
+  processed : List Nat := []
+  closed : List Nat := []
+  deriving Repr, DecidableEq
+
+/-- a declared task: id and the `on` of its catches -/
+abbrev Decl := Nat × List (Option String)
+
+def member (h : Hist) (d : Decl) : Member :=
+  { tid := d.1, catches := d.2, processed := h.processed.contains d.1, closed := h.closed.contains d.1 }
+
+/-- one error: `bubble` on the chain as the history left it; the members the error passed through are closed, the catcher is flagged -/
+def raise (h : Hist) (code : String) (chain : List Decl) : Hist × Outcome :=
+  match bubble code (chain.map (member h)) with
+  | (errs, .caughtAt tid on) => ({ processed := tid :: h.processed, closed := errs ++ h.closed }, .caughtAt tid on)
+  | (errs, o) => ({ processed := h.processed, closed := errs ++ h.closed }, o)
+
+/-- the outcomes of a whole history -/
+def run (h : Hist) : List (String × List Decl) → List Outcome
+  | [] => []
+  | e :: rest => (raise h e.1 e.2).2 :: run (raise h e.1 e.2).1 rest
+
+/-- the outcome is "caught by task `tid`" -/
+def Outcome.isCaughtBy (tid : Nat) : Outcome → Bool
+  | .caughtAt t _ => t == tid
+  | _ => false
+
 end Acts.Catch
